@@ -70,7 +70,7 @@ pub fn scratch_dir() -> PathBuf {
     d
 }
 
-pub fn run_cli(bin: &Path, args: &[&str], timeout_ms: u64) -> Result<CliOut, String> {
+pub fn run_cli<S: AsRef<std::ffi::OsStr>>(bin: &Path, args: &[S], timeout_ms: u64) -> Result<CliOut, String> {
     let dir = scratch_dir();
     let mut child = Command::new(bin)
         .args(args)
